@@ -271,7 +271,13 @@ pub fn run(tier: &str, seed: u64, outdir: &str) {
                             continue;
                         }
                         let md: CredentialRequestMetadata = serde_json::from_value(mdoc).unwrap();
-                        for w3c_form in [false, true] {
+                        // retry: the measured attempt is preceded, on the SAME object, by an attempt that is refused
+                        // (other link secret and another request's metadata); processing is a function of its inputs,
+                        // so the refused attempt must not change what the measured one answers
+                        for (w3c_form, retry) in [(false, false), (true, false), (false, true), (true, true)] {
+                            if retry && alterations > 1 {
+                                continue;
+                            }
                             if !w3c_form && ename.starts_with("w3c-") {
                                 continue;
                             }
@@ -280,6 +286,11 @@ pub fn run(tier: &str, seed: u64, outdir: &str) {
                             let Ok(mut c) = serde_json::from_value::<Credential>(doc) else { continue };
                             let (res, verify, fed) = if !w3c_form {
                                 let fed = fed_sx(&c);
+                                if retry {
+                                    let omd: CredentialRequestMetadata = serde_json::from_value(oth.clone()).unwrap();
+                                    let _ = guarded!(prover::process_credential(&mut c, &omd, &links[1 - l], &cds[k].cred_def, None));
+                                    let _ = guarded!(prover::process_credential(&mut c, &md, &links[1 - l], &cds[1 - k].cred_def, None));
+                                }
                                 let (res, _) = guarded!(prover::process_credential(&mut c, &md, &links[l], &cds[k].cred_def, None));
                                 let v = if res == "ok" { Some(present_and_verify(&c, &links[l])) } else { None };
                                 (res, v, fed)
@@ -308,6 +319,11 @@ pub fn run(tier: &str, seed: u64, outdir: &str) {
                                     // a subject the conversion refuses is not the signed value set
                                     Err(_) => format!("(({} {}))", sx::s("unencodable"), sx::s("x")),
                                 };
+                                if retry {
+                                    let omd: CredentialRequestMetadata = serde_json::from_value(oth.clone()).unwrap();
+                                    let _ = guarded!(w3c::prover::process_credential(&mut wc, &omd, &links[1 - l], &cds[k].cred_def, None));
+                                    let _ = guarded!(w3c::prover::process_credential(&mut wc, &md, &links[1 - l], &cds[1 - k].cred_def, None));
+                                }
                                 let (res, _) = guarded!(w3c::prover::process_credential(&mut wc, &md, &links[l], &cds[k].cred_def, None));
                                 let v = if res == "ok" { Some(present_and_verify_w3c(&wc, &links[l])) } else { None };
                                 (res, v, fed)
@@ -318,7 +334,7 @@ pub fn run(tier: &str, seed: u64, outdir: &str) {
                                     "(C11 {} P (0 {} {} {} {} {}) {} {} {} {} {} {} {})",
                                     id, signed, q.link, q.id, q.id, sx::boolean(*sig_altered), fed, k, l, mb, mn, res, sx::opt(verify, |v| v.to_string())
                                 ),
-                                &format!("process:{}:{}:{}", if w3c_form { "w3c" } else { "legacy" }, if alterations == 0 { "honest" } else if alterations == 1 { "one-alteration" } else { "several-alterations" }, res),
+                                &format!("process:{}{}:{}:{}", if w3c_form { "w3c" } else { "legacy" }, if retry { "-after-refused-attempts" } else { "" }, if alterations == 0 { "honest" } else if alterations == 1 { "one-alteration" } else { "several-alterations" }, res),
                                 || json!({"op": "process", "form": if w3c_form { "w3c" } else { "legacy" }, "edit": ename, "cred_def": k, "link": l, "metadata": mname, "impl": res, "verify": verify}),
                             );
                             out.bump(&format!("alteration:{}", if *ename != "none" { ename } else if k != 0 { "other-cred-def" } else if l != q.link { "other-link-secret" } else if mname != "own" { mname } else { "none" }));
@@ -327,6 +343,68 @@ pub fn run(tier: &str, seed: u64, outdir: &str) {
                 }
             }
         }
+    }
+    // ---- P, revocable: issuance against a status list in both issuance modes, processed WITH the registry definition ----
+    {
+        let tails = format!("{}/tails-c11", outdir);
+        let reg = world::make_registry(&cds[2], "did:web:i.example/reg/r", "r1", 6, &tails);
+        let schemas_r: HashMap<_, _> = [(anoncreds::data_types::schema::SchemaId::new_unchecked(cds[2].schema_id.clone()), cds[2].schema.clone())].into_iter().collect();
+        let cred_defs_r: HashMap<_, _> = [(anoncreds::data_types::cred_def::CredentialDefinitionId::new_unchecked(cds[2].cred_def_id.clone()), cds[2].cred_def.try_clone().unwrap())].into_iter().collect();
+        let preq: anoncreds::data_types::pres_request::PresentationRequest = serde_json::from_value(json!({"nonce": "123432421212", "name": "r", "version": "0.1",
+            "requested_attributes": {"a": {"name": "NAME"}}, "requested_predicates": {}})).unwrap();
+        for by_default in [true, false] {
+            let list = world::initial_list(&cds[2], &reg, by_default, Some(100));
+            for idx in [1u32, 3] {
+                for l in 0..2usize {
+                    for w3c_form in [false, true] {
+                        let offer = issuer::create_credential_offer(cds[2].schema_id.as_str().try_into().unwrap(), cds[2].cred_def_id.as_str().try_into().unwrap(), &cds[2].kcp).unwrap();
+                        let Ok((req, md)) = prover::create_credential_request(Some("entropy"), None, &cds[2].cred_def, &links[l], "ls", &offer) else { continue };
+                        let vals = values(&[("name", "Alex"), ("age", "28"), ("Zip Code", "007")]);
+                        let rc = anoncreds::types::CredentialRevocationConfig { reg_def: &reg.def, reg_def_private: &reg.def_priv, status_list: &list, registry_idx: idx };
+                        let Ok(mut cred) = issuer::create_credential(&cds[2].cred_def, &cds[2].cred_def_priv, &offer, &req, vals, Some(rc)) else { continue };
+                        let signed = signed_sx(&cred);
+                        let fed = fed_sx(&cred);
+                        let (res, verify) = if !w3c_form {
+                            let (res, _) = guarded!(prover::process_credential(&mut cred, &md, &links[l], &cds[2].cred_def, Some(&reg.def)));
+                            let v = if res == "ok" {
+                                let r = std::panic::catch_unwind(std::panic::AssertUnwindSafe(|| {
+                                    let mut pc = PresentCredentials::default();
+                                    let mut ac = pc.add_credential(&cred, None, None);
+                                    ac.add_requested_attribute("a", true);
+                                    let p = prover::create_presentation(&preq, pc, None, &links[l], &schemas_r, &cred_defs_r)?;
+                                    verifier::verify_presentation(&p, &preq, &schemas_r, &cred_defs_r, None, None, None)
+                                }));
+                                Some(crate::vw::outcome_of(r))
+                            } else { None };
+                            (res, v)
+                        } else {
+                            let Ok(mut wc) = w3c::credential_conversion::credential_to_w3c(&cred, &cds[2].issuer_id.as_str().try_into().unwrap(), None) else { continue };
+                            let (res, _) = guarded!(w3c::prover::process_credential(&mut wc, &md, &links[l], &cds[2].cred_def, Some(&reg.def)));
+                            let v = if res == "ok" {
+                                let r = std::panic::catch_unwind(std::panic::AssertUnwindSafe(|| {
+                                    let mut pc = PresentCredentials::default();
+                                    let mut ac = pc.add_credential(&wc, None, None);
+                                    ac.add_requested_attribute("a", true);
+                                    let p = w3c::prover::create_presentation(&preq, pc, &links[l], &schemas_r, &cred_defs_r, None)?;
+                                    w3c::verifier::verify_presentation(&p, &preq, &schemas_r, &cred_defs_r, None, None, None)
+                                }));
+                                Some(crate::vw::outcome_of(r))
+                            } else { None };
+                            (res, v)
+                        };
+                        let id = out.next_id();
+                        // an honest flow: key 2 signed, for link l, blinding / nonce identity 1000 + id (its own request)
+                        let rid = 1000 + id as usize;
+                        out.case(
+                            &format!("(C11 {} P (2 {} {} {} {} f) {} 2 {} {} {} {} {})", id, signed, l, rid, rid, fed, l, rid, rid, res, sx::opt(verify, |v| v.to_string())),
+                            &format!("process:{}:revocable-{}:{}", if w3c_form { "w3c" } else { "legacy" }, if by_default { "issued-by-default" } else { "issued-on-demand" }, res),
+                            || json!({"op": "process", "form": if w3c_form { "w3c" } else { "legacy" }, "revocable": true, "issuance_by_default": by_default, "index": idx, "link": l, "impl": res, "verify": verify}),
+                        );
+                    }
+                }
+            }
+        }
+        let _ = std::fs::remove_dir_all(&tails);
     }
     out.finish();
 }
